@@ -162,6 +162,9 @@ structure OSt where
   recs : List ((Nat × Chan) × List Bool) := []     -- records per channel file, from the script and earlier events
   bounce : List (Nat × (Nat × Nat)) := []          -- per message: paragraphs, too-long paragraphs seen so far
   dues : List ((Nat × Chan) × Int) := []           -- mtime given by the script
+  mts : List ((Nat × Chan) × Option Int) := []     -- what is known of each channel file's mtime: the script's value or the one pqfinish
+                                                   -- stored (read back from disk in the f event); none after a pass has marked a record
+                                                   -- (markdone's write gives the file the real time of day, which the script does not fix)
   atFin : Option (List Elt × List Elt) := none     -- heaps when pqfinish ran (cleared by anything but L)
   live : Bool := false                             -- a daemon process is running on this directory (L seen, no f / file creation since)
   backoff : List ((Nat × Chan) × Int) := []        -- ghost: back-off time owed since the last attempt that left a 'T' record
@@ -180,7 +183,7 @@ def oracleStep0 (lifetime : Int) (o : OSt) (stp : Step) (ev : Ev) : OSt × Optio
   | .mk id c birth due nrec, _ =>
     let births := if (o.births.find? (·.1 == id)).isSome then o.births else (id, birth) :: o.births
     ({ o with births := births, recs := setKey (id, c) (List.replicate nrec true) o.recs,
-              dues := setKey (id, c) due o.dues, atFin := none, live := false,
+              dues := setKey (id, c) due o.dues, mts := setKey (id, c) (some due) o.mts, atFin := none, live := false,
               backoff := o.backoff.filter (fun x => !(x.1.1 == id)) }, none)
   | .clock t, _ => ({ o with clock := t }, none)
   | .load, .load a b d =>
@@ -194,7 +197,17 @@ def oracleStep0 (lifetime : Int) (o : OSt) (stp : Step) (ev : Ev) : OSt × Optio
       let exp (c : Chan) := o.dues.filterMap fun ((id, c'), due) =>
         if c' == c && (o.recs.find? (·.1 == (id, c))).isSome then some ({ dt := due, id := id } : Elt) else none
       if o.q0.isEmpty && o.q1.isEmpty && sameMultiset a (exp .loc) && sameMultiset b (exp .rem) then (o', none)
-      else if !(o.q0.isEmpty && o.q1.isEmpty) then (o', none)   -- crash restart: not covered by the property
+      else if !(o.q0.isEmpty && o.q1.isEmpty) then
+        -- crash restart (no pqfinish): the back-off of the running process is lost by design, but pqstart must still schedule
+        -- every existing channel file, and with the mtime the file has (where the history fixes it)
+        let okc (c : Chan) (q : List Elt) :=
+          sameMultiset (q.map fun e => { e with dt := 0 })
+            (o.recs.filterMap fun ((id, c'), _) => if c' == c then some ({ dt := 0, id := id } : Elt) else none) &&
+          q.all fun e => match (o.mts.find? (·.1 == (e.id, c))).map (·.2) with
+            | some (some t) => e.dt == t
+            | _ => true
+        if okc .loc a && okc .rem b then (o', none)
+        else (o', some s!"after a crash restart pqstart did not schedule every existing channel file at its persisted mtime: {showElts a}/{showElts b}")
       else (o', some "pqstart did not load the persisted due times (mtime of the channel files)")
   | .alrm, .alrm a b =>
     let o' := { o with q0 := a, q1 := b, atFin := none, backoff := [] }
@@ -206,7 +219,9 @@ def oracleStep0 (lifetime : Int) (o : OSt) (stp : Step) (ev : Ev) : OSt × Optio
     (o, if ok then none else some s!"wakeup {t} is later than the earliest due time")
   | .fin, .fin m0 m1 =>
     let ok (q m : List Elt) := q.all fun e => m.contains e
-    let o' := { o with atFin := some (o.q0, o.q1), q0 := [], q1 := [], live := false }
+    let o' := { o with atFin := some (o.q0, o.q1), q0 := [], q1 := [], live := false,
+                       mts := (m1.foldl (fun acc e => setKey (e.id, Chan.rem) (some e.dt) acc)
+                                (m0.foldl (fun acc e => setKey (e.id, Chan.loc) (some e.dt) acc) o.mts)) }
     if ok o.q0 m0 && ok o.q1 m1 then (o', none) else (o', some "pqfinish did not persist every due time as the channel file's mtime")
   | .pass c letters fault, .pass id retry dying ndel recs npar ntoo a b d =>
     let o' := { o with q0 := a, q1 := b, done := d, atFin := none }
@@ -244,6 +259,8 @@ def oracleStep0 (lifetime : Int) (o : OSt) (stp : Step) (ev : Ev) : OSt × Optio
         let otherRecs := (o.recs.find? (·.1 == (id, SchedHist.other c))).isSome
         let o' := { o' with recs := if gone && !unlinkFailed then o'.recs.filter (fun x => !(x.1 == (id, c))) else setKey (id, c) after o'.recs,
                             bounce := setKey id (npar, ntoo) o'.bounce,
+                            mts := if gone && !unlinkFailed then o'.mts.filter (fun x => !(x.1 == (id, c)))
+                                   else if after != before then setKey (id, c) none o'.mts else o'.mts,
                             backoff := if gone then o'.backoff.filter (fun x => !(x.1 == (id, c)))
                                        else match specRetry o.clock birth c with
                                          | some r => setKey (id, c) r o'.backoff
